@@ -10,7 +10,7 @@ open Lean Einx.Driver Einx.Solve
 Request: `{"kind":"cse_trees","roots":[tree|null,…],"cse_concat":bool,"cse_in_brackets":bool}` (tree JSON as for
 `value_range`).  Answer: `{"ok":true,"out":[tree|null,…],"cands":[{"key":str,"occs":[[[root,path…],…],…]},…]}` or
 `{"ok":false,"error":msg}` when the model reaches one of the exceptions of the real code.
-`cse_check` (same request fields): `{"wf","used_ok","pairs_ok","check","events","used","filter_ok","unique_ids","reduced","input_ok","fresh_ok","root_dims_ok","overlap_ok"}` (`filter_ok`, `unique_ids`: decidable
+`cse_check` (same request fields): `{"wf","used_ok","pairs_ok","check","events","used","filter_ok","unique_ids","reduced","input_ok","fresh_ok","root_dims_ok","copied_ok","shared_ok"}` (`filter_ok`, `unique_ids`: decidable
 forms of the proved facts `cse_trees_is_cse_step`, `candidates_unique_ids` — sanity checks of the model).
 `cse_enum` (same fields + `"order":"reverse"|"rotate"|"insertion"`): `{"result":{"ok",…},"unique_ids","candidates"}` — the
 model with another enumeration of the dict.
@@ -63,7 +63,7 @@ def handle (j : Json) : R Json := do
                       -- the parts of `cseCheckReduced` (Solve/CseCheck2.lean; `cseCheck_of_reduced`)
                       ("reduced", Json.bool (cseCheckReduced opts roots)), ("input_ok", Json.bool (inputOK roots)),
                       ("fresh_ok", Json.bool (freshOK evs)), ("root_dims_ok", Json.bool (rootDimsOK evs)),
-                      ("overlap_ok", Json.bool (overlapOK evs)),
+                      ("copied_ok", Json.bool (copiedOK evs)), ("shared_ok", Json.bool (sharedOK evs)),
                       ("unique_ids", Json.bool (uniqueIds (candidates opts roots)))])
   | "cse_enum" =>
     -- C16: the model with another enumeration of the dict `str_to_common_expr` (`order`: "reverse" | "rotate")
